@@ -114,6 +114,15 @@ def property_parts(ctx, exe, sizes, lat=None):
             key = "general-" + re.sub(r"[^A-Za-z0-9^+.-]+", "_", what.split(":")[0])[:60]
             ctx.finding(key, "general-position oracle failed on %s: %s" % (c["tag"], what), {"what": "general position pair", "case": c["tag"], "oracle": what, "seed": ctx.seed,
                                                                                               "replay": "VERIF_SEED=%d build/h/c02_bool general %s  (case %s)" % (ctx.seed, sizes["general"], t[0])})
+    # (d) unions of more than 1000 operands (chunked BatchUnion / Compose of disjoint operands), exact volume known
+    csb, _ = cases.run_case_harness(ctx, exe, ["bigbatch", 0 if ctx.tier == "quick" else 1])
+    for c in csb:
+        if not c["prop"].startswith("ok"):
+            t = c["tag"].split()
+            ctx.finding("bigbatch-" + "-".join(x for x in t[2:6]), "many-operand union oracle failed on %s: %s" % (c["tag"], c["prop"]),
+                        {"what": "union of N disjoint pegs and plates crossing all of them, exact volume by inclusion-exclusion", "case": c["tag"], "oracle": c["prop"], "seed": ctx.seed,
+                         "replay": "VERIF_SEED=%d build/h/c02_bool bigbatch %s" % (ctx.seed, " ".join(x.split("=")[1] for x in t[2:6]))})
+    cov["bigbatch_cases"] = len(csb)
     cov["general_pairs"] = len(cs); cov["general_pairs_with_sample_points_in_both"] = nontriv; cov["general_operand_kinds"] = dict(kinds.most_common(12))
     cov["general_samples"] = [core.clip(c["tag"], 200) for c in cs[:3]]
     return cov, lat
